@@ -108,6 +108,7 @@ def run_general(ctx, fields, what, n_fake, n_real, gen=None, rule="", names_mix=
             one_case(eng, res, sc, a2, opts, explicit, order, fields, what, real=(it >= n_fake), names=names,
                      sample=(it % 37 == 0), packed=(rng.random() < 0.3), pack_refs=(rng.random() < 0.3))
         wide_cases(eng, res, fields, what, ctx["tier"] == "quick", rng)
+        scale_cases(eng, res, fields, what, ctx["tier"] == "quick", rng)
     finally:
         eng.close()
     res.assumptions = ["git rev-list is assumed to list exactly the reachable objects, commits before their parents; "
@@ -137,8 +138,18 @@ def wide_scenario(n, shared=False):
 
 def wide_cases(eng, res, fields, what, quick, rng):
     """Wide trees under three legal delivery orders (parents before sub-trees, sub-trees first, git-like)."""
-    widths = [127, 128, 129, 255, 256, 257, 300] + ([] if quick else [1000, 32767, 32768, 65535, 65536, 65537])
+    widths = [127, 128, 129, 255, 256, 257, 300] + ([] if quick else [1000, 4095, 4096, 4097])
     n = 0
+    # beyond what the list-based model evaluates in reasonable time: judged against closed-form values
+    for w in ([] if quick else [32767, 32768, 65535, 65536, 65537]):
+        sc = wide_scenario(w, False)
+        roots = [x for _, x in sorted(sc.refs)]
+        exp = {"unique_blob_count": 1, "unique_tree_count": w + 3, "unique_tree_entries": 2 * w + 2, "max_tree_entries": w,
+               "max_expanded_tree_count": w + 2, "max_expanded_blob_count": w, "max_path_depth": 3, "unique_commit_count": 2,
+               "max_history_depth": 1}
+        for style in ("referrer_first", "referent_first"):
+            closed_form_case(eng, res, sc, sc.enum_random(roots, rng, style=style), exp, "%s: tree with %d sub-directories (%s)" % (what, w, style))
+            n += 1
     for w in widths:
         for shared in ((False,) if w > 300 else (False, True)):
             sc = wide_scenario(w, shared)
@@ -148,3 +159,83 @@ def wide_cases(eng, res, fields, what, quick, rng):
                 one_case(eng, res, sc, [], [], [], order, fields, "%s: tree with %d sub-directories (%s, %s)" % (what, w, "shared" if shared else "distinct", style))
                 n += 1
     res.coverage_extra["wide_tree_cases"] = n
+
+
+def closed_form_case(eng, res, sc, order, exp, what):
+    """Implementation only (fakegit), judged against values known by construction of the scenario."""
+    rc, out, err, log = eng.run_fake(sc, order, [], [], timeout=600)
+    res.case((what, len(sc.objects)), True)
+    inp = {"scenario": what, "objects": len(sc.objects)}
+    if rc != 0:
+        res.violations.append(vlib.Violation("%s: run failed (rc=%s): %s" % (what, rc, str(err)[:300]), inp, expected="exit 0"))
+        return
+    vals, j = S.hist_from_json(out)
+    for f, v in exp.items():
+        if j[f] != v:
+            res.violations.append(vlib.Violation("%s: %s differs from the value known by construction" % (what, f), inp,
+                                                 expected={f: v}, observed={f: j[f]}))
+
+
+def scale_scenarios(quick):
+    """Counts that cross 127/128, 255/256 (and 32767.., 65535.. in the thorough tier): history depth, parents of one commit,
+    tag chain length, directory nesting, entries of one tree, number of references."""
+    ns = [127, 128, 129, 255, 256, 257] + ([] if quick else [1000, 4095, 4096, 4097])
+    for n in ns:
+        # linear history of n commits, the tip an octopus over min(n, 300) of them
+        s = S.Scenario()
+        b = s.add({"kind": "blob", "data": b"x"})
+        t = s.add({"kind": "tree", "entries": [(0o100644, b"f", b)]})
+        prev, commits = None, []
+        for i in range(n):
+            prev = s.add({"kind": "commit", "tree": t, "parents": [prev] if prev is not None else [], "date": 1000000000 + i, "msg": b"c\n"})
+            commits.append(prev)
+        s.refs.append((b"refs/heads/deep", prev))
+        yield "history of %d commits" % n, s.compute()
+        if n <= 65537:
+            s = S.Scenario()
+            b = s.add({"kind": "blob", "data": b"x"})
+            t = s.add({"kind": "tree", "entries": [(0o100644, b"f", b)]})
+            ps = [s.add({"kind": "commit", "tree": t, "parents": [], "date": 1000000000 + i, "msg": b"p%d\n" % i}) for i in range(min(n, 300))]
+            o = s.add({"kind": "commit", "tree": t, "parents": ps, "date": 2000000000, "msg": b"octopus\n"})
+            s.refs.append((b"refs/heads/octopus", o))
+            yield "commit with %d parents" % len(ps), s.compute()
+        if n <= 300:
+            # a chain of n annotated tags, and a directory nested n deep, and n references
+            s = S.Scenario()
+            b = s.add({"kind": "blob", "data": b"x"})
+            t = s.add({"kind": "tree", "entries": [(0o100644, b"f", b)]})
+            for i in range(n):
+                t = s.add({"kind": "tree", "entries": [(0o40000, b"d", t)]})
+            c = s.add({"kind": "commit", "tree": t, "parents": []})
+            g = c
+            for i in range(n):
+                g = s.add({"kind": "tag", "target": g, "name": b"v%d" % i})
+            s.refs.append((b"refs/tags/deep", g))
+            for i in range(n):
+                s.refs.append((b"refs/heads/b%05d" % i, c))
+            yield "tag chain, directory nesting and reference count %d" % n, s.compute()
+
+
+def scale_cases(eng, res, fields, what, quick, rng):
+    n = 0
+    for big in ([] if quick else [32767, 32768, 65535, 65536, 65537]):
+        # a linear history too long for the list-based model: judged against closed-form values
+        s = S.Scenario()
+        b = s.add({"kind": "blob", "data": b"x"})
+        t = s.add({"kind": "tree", "entries": [(0o100644, b"f", b)]})
+        prev = None
+        for i in range(big):
+            prev = s.add({"kind": "commit", "tree": t, "parents": [prev] if prev is not None else [], "date": 1000000000 + i, "msg": b"c\n"})
+        s.refs.append((b"refs/heads/deep", prev))
+        s.compute()
+        exp = {"unique_commit_count": big, "max_history_depth": big, "max_parent_count": 1, "unique_tree_count": 1, "unique_blob_count": 1,
+               "reference_count": 1}
+        closed_form_case(eng, res, s, s.enum_gitlike([prev]), exp, "%s: history of %d commits" % (what, big))
+        n += 1
+    for label, sc in scale_scenarios(quick):
+        roots = [x for _, x in sorted(sc.refs)]
+        for style in ("gitlike", "referent_first"):
+            order = sc.enum_random(list(dict.fromkeys(roots)), rng, style=style)
+            one_case(eng, res, sc, [], [], [], order, fields, "%s: %s (%s)" % (what, label, style))
+            n += 1
+    res.coverage_extra["scale_cases"] = n
